@@ -14,6 +14,7 @@ import (
 	"encoding/json"
 	stdflag "flag"
 	"fmt"
+	"net"
 	"os"
 	"reflect"
 	"sort"
@@ -83,11 +84,12 @@ type SStrs []string
 type SDict map[string]string
 type SCount int
 type SName string
+type SCplx complex64
 
 // which sources can be given a leaf of this kind at all (the others are still run: they must not panic)
 func envSupports(kind string) bool {
 	switch kind {
-	case "time", "durs", "structs", "pdurs":
+	case "time", "durs", "structs", "pdurs", "ip":
 		return false
 	}
 	return true
@@ -103,7 +105,7 @@ func flagSupports(kind string) bool {
 
 func docSupports(kind string) bool {
 	switch kind {
-	case "named", "c64", "knamed":
+	case "named", "c64", "knamed", "ncplx":
 		return false // not expressible alike in all four formats
 	}
 	return true
@@ -112,6 +114,7 @@ func docSupports(kind string) bool {
 // SItem is the element of the slice-of-struct leaf kind (decoders only)
 type SItem struct {
 	N int       `dials:"n"`
+	u int       // skipped fields are legal inside element structs too (here: after an exported one)
 	W time.Time `dials:"w"` // a text-unmarshalable struct held by value inside a slice element (never pointerified)
 }
 
@@ -227,6 +230,10 @@ func kindType(k string) reflect.Type {
 		return reflect.TypeOf(map[string]SCount(nil))
 	case "knamed":
 		return reflect.TypeOf(map[SName]string(nil))
+	case "ncplx":
+		return reflect.TypeOf(SCplx(0))
+	case "ip":
+		return reflect.TypeOf(net.IP(nil))
 	case "pdurs":
 		return reflect.TypeOf([]*time.Duration(nil))
 	case "pint":
@@ -340,6 +347,11 @@ func leafValue(kind string, id int) (reflect.Value, string, interface{}) {
 		return reflect.ValueOf(map[string]SCount{fmt.Sprintf("k%d", id): SCount(id)}), fmt.Sprintf(`"k%d":%d`, id, id), map[string]interface{}{fmt.Sprintf("k%d", id): id}
 	case "knamed":
 		return reflect.ValueOf(map[SName]string{SName(fmt.Sprintf("k%d", id)): "v"}), fmt.Sprintf(`"k%d":"v"`, id), map[string]interface{}{fmt.Sprintf("k%d", id): "v"}
+	case "ncplx":
+		return reflect.ValueOf(SCplx(complex(float32(id), float32(2)))), fmt.Sprintf("(%d+2i)", id), nil
+	case "ip": // a text-unmarshalable value of slice kind
+		ip := net.IPv4(10, 0, byte(id/250), byte(id%250+1))
+		return reflect.ValueOf(ip), ip.String(), ip.String()
 	case "pdurs": // a collection of pointers with a hole in it
 		d := time.Duration(id) * time.Second
 		return reflect.ValueOf([]*time.Duration{nil, &d}), "", []interface{}{nil, d.String()}
@@ -1005,6 +1017,21 @@ func yamlText(v interface{}, indent string, b *strings.Builder) {
 
 var sharedDecs = map[string]dials.Decoder{}
 
+// hasAliasOrSet: the case uses something only the wrappers understand (alias spellings, sets written as lists)
+func (r *srcRun) hasAliasOrSet() bool {
+	for _, l := range r.c.Expect.Leaves {
+		if l.Kind == "set" || l.Pat == "alias" || l.Pat == "both" || l.Pat == "bothempty" {
+			return true
+		}
+		for _, pf := range pathTo(r.c.Fields, l.ID) {
+			if pf.PAlias {
+				return true
+			}
+		}
+	}
+	return false
+}
+
 func (r *srcRun) runDecoders() {
 	tree, ok := r.docTree("json")
 	// outside the property's scope (untagged fields, kinds without a common spelling) the decoders are still run on what
@@ -1054,6 +1081,13 @@ func (r *srcRun) runDecoders() {
 			if err == nil && len(r.mis) == before && judged {
 				results[name] = res
 			}
+			// the bare decoder (no alias / set-to-slice wrapper in front of it) must cope with the same type and document
+			r.guard(name+" (unwrapped)", func() {
+				res0, err0 := (&static.StringSource{Data: docs[name], Decoder: decs[name]}).Value(context.Background(), dials.NewType(r.ptyp))
+				if err0 == nil && err == nil && judged && r.c.Garbage == "" && !r.hasAliasOrSet() && !reflect.DeepEqual(res0.Interface(), res.Interface()) {
+					r.add("C20", name, "the decoder behind an alias / set-to-slice wrapper decodes %q differently from the bare decoder", docs[name])
+				}
+			})
 			// C20 (wrapping a decoder does not change what reaches the config): one wrapped decoder instance serves every
 			// config type of this process, as a package-level decoder would; it must behave like the fresh one
 			func() {
